@@ -16,13 +16,19 @@ LEVEL_TEXT = ("Theorems in coq/Props/C06.v about the executable model coq/Link/L
               "untrusted load that reports success was handed a complete stream whose bytes build the requested link, and "
               "returns the decoding of exactly those bytes / exactly those bytes; bytes that do not hash to the link give "
               "ErrHashMismatch from all four load functions whatever the decoder does; open/read errors never yield Ok, a "
-              "node or bytes; a store that does not report success commits nothing. A storage-writer failure makes the "
-              "store fail for every encoder that reports write errors (proved); for refmt's JSON encoder, which drops "
-              "them, the statement is refuted in the model and reported as a known finding. Tied to /repo by enumerating, "
+              "node or bytes; a store that does not report success commits nothing; whatever the storage writer does "
+              "(sticky or transient failures, short writes, any per-Write schedule) a store that reaches the committer has "
+              "written exactly the encoder's output and returns ComputeLink's link — with Store's write-error latch (fix "
+              "4c486a6) for every encoder, without it for encoders that report write errors; without the latch the "
+              "statement is refuted for refmt's JSON encoder (sticky and transient witnesses). Tied to /repo by enumerating, "
               "for every block of a corpus (5 codecs + CIDv0 x sha2-256/sha2-512/sha3-256/identity/truncated digests): "
               "every single-bit flip, every truncation, appended bytes, substituted blocks, a read error at every offset, "
               "every 2-way and (small blocks: every) 3-way chunking, damaged bytes under their own link, open errors, "
-              "TrustedStorage, and a writer failure at every byte offset, across Load/LoadRaw/LoadPlusRaw/Fill.")
+              "TrustedStorage, EMPTY reads (0, nil) before every byte position, after the genuine block before appended bytes "
+              "and at true EOF, across Load/LoadRaw/LoadPlusRaw/Fill; store side: a sticky writer failure at every byte "
+              "offset, a TRANSIENT failure of exactly write #k (and #k..#k+j) for every k, short writes at every write, "
+              "opener and committer failures, with Store's link compared to ComputeLink's and the committed bytes to the "
+              "encoder's output.")
 LEVEL_NOTE = ("Read errors are sticky (a reader that failed keeps failing); a decoder is assumed to behave on a stream that "
               "ends in a read error as on the same bytes followed by EOF up to the point where it looks at the end of the "
               "stream (prefix determinism), and to report the read error there. Trusted-storage Fill with a read error, "
@@ -32,6 +38,7 @@ LEVEL_NOTE = ("Read errors are sticky (a reader that failed keeps failing); a de
 TRUSTED = ["hash functions: arbitrary Section variables hasher_ok/hash (no law assumed); real digests enter the extracted model as per-record tables",
            "dag-json and json codecs: law consumes_all assumed (C06_default_registry_law); checked on every decode the harness ran; their real behaviour enters the model run as per-record tables",
            "decoders are prefix-deterministic and report a read error met at the end of the stream (definition stream_dec); exercised by a read error injected at every offset",
+           "an empty read (0, nil) does not change what a decoder sees (the model's reader is the concatenation of its chunks): FALSE for refmt's byte reader on the pinned tree — known finding empty_read_mid_block, flagged by the oracle; exercised at every byte position",
            "go-cid / go-multihash / go-varint (Prefix, NewCidV0/V1, Encode, PutUvarint), io.TeeReader / io.MultiWriter / io.Copy: hand-modelled in coq/Link/LinkSys.v; tied by correspondence only",
            "refmt v0.90 CBOR encoder/tokenizer: hand-modelled in coq/Codec/Cbor.v; tied by correspondence only"]
 RULE = ("corpus of encoded blocks (fixed blocks per codec x hash, then generated values in each codec's domain, <= 64 bytes "
@@ -56,4 +63,4 @@ def nontrivial(fs):
 
 
 def input_key(fs):
-    return "\t".join(fs[1:8])
+    return "\t".join(fs[1:9])
